@@ -751,6 +751,31 @@ class ShardCtx:
             self.stats.maximum("max_request_bytes", m.get("max_req"))
         return rec
 
+    def shared_between_threads(self, lines, what, threads=4, reps=25, files=None):
+        """mt.same: the read-only operations `lines` on live handles, answered on one thread and then by `threads` threads sharing the
+        objects; every concurrent answer (and a second sequential one) must equal the first. The answers themselves are judged by
+        the property's own oracle where the same operations run singly."""
+        if not lines:
+            return
+        if self.variant in ("miri", "memcheck"):
+            lines, reps, threads = lines[:12], 2, min(threads, 3)
+        sf = self.write("mt-%s.script" % what, ("\n".join(lines) + "\n").encode())
+        rec = self.call("mt.same", threads, reps, sf, input_bytes=1 << 20)
+        self.check_mon(rec, 1 << 20, residual=False, files=files)
+        if not rec.ok:
+            return
+        v = rec.value
+        self.stats.classes["shared-between-threads:%s" % what] += 1
+        self.stats.monitor["concurrent_calls"] += v.get("concurrent_calls", 0)
+        if v.get("not_shared_because_not_sync"):
+            self.note("a type of this tree is not Sync: its operations were left out of the shared-object workload (%s)" % what)
+        self.stats.evaluations += v.get("ops", 0)
+        if v.get("mismatches"):
+            op = lines[v["first"]].split(" ")[0] if 0 <= v.get("first", -1) < len(lines) else "?"
+            self.violation("concurrency", dict(kind="concurrency", sub="shared_object_answers_differ", op=op, what=what),
+                           dict(mismatches=v["mismatches"], first_line=lines[v["first"]][:200] if 0 <= v.get("first", -1) < len(lines) else None, threads=threads, reps=reps),
+                           files=(files or []) + [sf], commands=[dict(verb="mt.same", args=[str(threads), str(reps), sf])])
+
     # -- files
     def path(self, name):
         return os.path.join(self.scratch, name)
